@@ -167,6 +167,10 @@ struct Opn<F: VF> {
     gammas: Vec<F>,
     alphas: Vec<F>,
     zeta: Ext<F>,
+    /// lookup openings and delta challenges (empty for circuits without lookups)
+    lzs: Vec<Ext<F>>,
+    lzs_next: Vec<Ext<F>>,
+    deltas: Vec<F>,
 }
 
 /// `ext`: openings are extension symbols (else base symbols, embedded); `fixed_perm`: the
@@ -188,6 +192,9 @@ fn sym_opn<F: VF>(cd: &CommonCircuitData<F, 2>, ext: bool, fixed_perm: bool) -> 
         gammas: (0..nch).map(|i| if fixed_perm { chal::<F>(19, i as u64) } else { F::var(&format!("gamma{i}")) }).collect(),
         alphas: (0..nch).map(|i| F::var(&format!("alpha{i}"))).collect(),
         zeta: if fixed_perm { fx(7) } else { F::ext("zeta") },
+        lzs: (0..nch * cd.num_lookup_polys).map(|i| e(format!("lz{i}"))).collect(),
+        lzs_next: (0..nch * cd.num_lookup_polys).map(|i| e(format!("lzn{i}"))).collect(),
+        deltas: if cd.num_lookup_polys == 0 { vec![] } else { (0..4 * nch).map(|i| chal::<F>(23, i as u64)).collect() },
     }
 }
 
@@ -203,6 +210,9 @@ struct OpnT {
     gammas: Vec<Target>,
     alphas: Vec<Target>,
     zeta: ExtensionTarget<2>,
+    lzs: Vec<ExtensionTarget<2>>,
+    lzs_next: Vec<ExtensionTarget<2>>,
+    deltas: Vec<Target>,
 }
 
 fn opn_targets<F: VF>(cx: &mut Cx<F>, o: &Opn<F>) -> OpnT {
@@ -218,19 +228,22 @@ fn opn_targets<F: VF>(cx: &mut Cx<F>, o: &Opn<F>) -> OpnT {
         gammas: cx.ts(&o.gammas),
         alphas: cx.ts(&o.alphas),
         zeta: cx.e(o.zeta),
+        lzs: cx.es(&o.lzs),
+        lzs_next: cx.es(&o.lzs_next),
+        deltas: cx.ts(&o.deltas),
     }
 }
 
 fn native_vanishing<F: VF>(cd: &CommonCircuitData<F, 2>, o: &Opn<F>) -> Vec<Ext<F>> {
     let vars = EvaluationVars { local_constants: &o.constants, local_wires: &o.wires, public_inputs_hash: &o.pih };
-    F::assume_ne(|| hk::eval_vanishing_poly::<F, 2>(cd, o.zeta, vars, &o.zs, &o.zs_next, &[], &[], &o.pps, &o.sigmas, &o.betas, &o.gammas, &o.alphas, &[]))
+    F::assume_ne(|| hk::eval_vanishing_poly::<F, 2>(cd, o.zeta, vars, &o.zs, &o.zs_next, &o.lzs, &o.lzs_next, &o.pps, &o.sigmas, &o.betas, &o.gammas, &o.alphas, &o.deltas))
 }
 
 /// mirrors the head of `CircuitBuilder::verify_proof_with_challenges`
 fn circuit_vanishing<F: VF>(cx: &mut Cx<F>, cd: &CommonCircuitData<F, 2>, t: &OpnT) -> Vec<ExtensionTarget<2>> {
     let vars = EvaluationTargets { local_constants: &t.constants, local_wires: &t.wires, public_inputs_hash: &t.pih };
     let zeta_pow_deg = cx.b.exp_power_of_2_extension(t.zeta, cd.degree_bits());
-    hk::eval_vanishing_poly_circuit::<F, 2>(&mut cx.b, cd, t.zeta, zeta_pow_deg, vars, &t.zs, &t.zs_next, &[], &[], &t.pps, &t.sigmas, &t.betas, &t.gammas, &t.alphas, &[])
+    hk::eval_vanishing_poly_circuit::<F, 2>(&mut cx.b, cd, t.zeta, zeta_pow_deg, vars, &t.zs, &t.zs_next, &t.lzs, &t.lzs_next, &t.pps, &t.sigmas, &t.betas, &t.gammas, &t.alphas, &t.deltas)
 }
 
 /// arithmetic + constant + random access + base sum (range check) + Poseidon / public input
@@ -263,8 +276,8 @@ fn vanishing<F: VF>(ctx: &mut Ctx, name: &str, mk: impl Fn() -> CommonCircuitDat
         let (got, rows) = cx.run_ext(&outs);
         let gates: Vec<String> = cd.gates.iter().map(|g| g.0.id()).collect();
         let bounds = format!(
-            "inner common data from the real builder: gates {:?}, {} selector column(s), {} wires ({} routed), quotient degree factor {}, {} challenges, degree 2^{}, no lookups; evaluating circuit: standard_recursion_config, {} rows, real generators; openings {}; {}",
-            gates, hk::selectors_info_parts(&cd.selectors_info).1.len(), cd.config.num_wires, cd.config.num_routed_wires, cd.quotient_degree_factor, cd.config.num_challenges, cd.degree_bits(), rows,
+            "inner common data from the real builder: gates {:?}, {} selector column(s), {} wires ({} routed), quotient degree factor {}, {} challenges, degree 2^{}, lookup tables of {:?} entries; evaluating circuit: standard_recursion_config, {} rows, real generators; openings {}; {}",
+            gates, hk::selectors_info_parts(&cd.selectors_info).1.len(), cd.config.num_wires, cd.config.num_routed_wires, cd.quotient_degree_factor, cd.config.num_challenges, cd.degree_bits(), cd.luts.iter().map(|l| l.len()).collect::<Vec<_>>(), rows,
             if ext { "symbolic extension elements" } else { "symbolic base elements (embedded)" },
             if fixed_perm { "alphas, public-input hash symbolic; zeta, betas, gammas, sigma openings fixed to seeded constants" } else { "zeta, betas, gammas, alphas, public-input hash symbolic" }
         );
@@ -1308,6 +1321,13 @@ pub fn family<F: VF>(ctx: &mut Ctx) {
     let th = ctx.thorough();
     vanishing::<F>(ctx, "tiny", || tiny_circuit::<F>().0.common, true, false);
     vanishing::<F>(ctx, "multi-gate", || multi_gate_circuit::<F>().common, false, true);
+    // circuits with lookup tables: a table that exactly fills its rows (4 and 8 entries for 4 table
+    // slots), one that does not, and two tables
+    vanishing::<F>(ctx, "lookups-4", || crate::lookup::common_with_lookups::<F>(&[4]), false, true);
+    vanishing::<F>(ctx, "lookups-8-3", || crate::lookup::common_with_lookups::<F>(&[8, 3]), false, true);
+    if th {
+        vanishing::<F>(ctx, "lookups-5", || crate::lookup::common_with_lookups::<F>(&[5]), false, true);
+    }
     if th {
         vanishing::<F>(ctx, "tiny-base", || tiny_circuit::<F>().0.common, false, false);
     }
@@ -1359,7 +1379,8 @@ pub fn e2e_corruptions(ctx: &mut Ctx) {
     alt.fri_config.cap_height = 2;
     alt.fri_config.reduction_strategy = FriReductionStrategy::Fixed(vec![2, 1, 1]);
     alt.fri_config.num_query_rounds = 30;
-    alt.fri_config.proof_of_work_bits = 14;
+    // far fewer grinding bits than the outer circuit's own configuration (16)
+    alt.fri_config.proof_of_work_bits = 3;
     alt.num_challenges = 3;
     for (cname, inner_cfg) in [("standard", std_cfg.clone()), ("cap2-arity211-3ch", alt)] {
         let setup = std::panic::catch_unwind(std::panic::AssertUnwindSafe(|| {
